@@ -22,7 +22,9 @@ HARNESS = os.path.dirname(os.path.dirname(os.path.abspath(__file__)))
 VERIF = os.path.dirname(HARNESS)
 LEAN = os.path.join(VERIF, "lean")
 REPO = os.environ.get("ACN_REPO", "/repo")
-EVIDENCE = os.path.join(VERIF, "evidence")
+# evidence/ describes /repo itself; runs against a scratch tree (ACN_REPO=<worktree>, used to test seeded
+# changes) write to evidence_scratch/ (git-ignored) so that they never overwrite the committed evidence
+EVIDENCE = os.path.join(VERIF, "evidence" if os.path.realpath(REPO) == "/repo" else "evidence_scratch")
 REPLAYS = os.path.join(VERIF, "replays")
 KNOWN = os.path.join(VERIF, "known_findings.json")
 
